@@ -16,11 +16,12 @@
 package verifsync
 
 import (
+	goidpkg "verif.local/goid"
+
 	"fmt"
 	"math"
 	"math/rand"
 	"reflect"
-	"runtime"
 	"sort"
 	"strings"
 	"sync"
@@ -196,20 +197,10 @@ func (s *Sim) Scheduled() bool { s.mu.Lock(); defer s.mu.Unlock(); return s.sche
 // Goid returns the id of the calling goroutine.
 func Goid() uint64 { return goid() }
 
-func goid() uint64 {
-	var buf [40]byte
-	n := runtime.Stack(buf[:], false)
-	// "goroutine 123 ["
-	var id uint64
-	for i := 10; i < n; i++ {
-		c := buf[i]
-		if c < '0' || c > '9' {
-			break
-		}
-		id = id*10 + uint64(c-'0')
-	}
-	return id
-}
+// GoidFast reports whether goroutine ids are read from the runtime's g directly.
+func GoidFast() bool { return goidpkg.Fast() }
+
+func goid() uint64 { return goidpkg.Get() }
 
 // Go replaces the go statements of the instrumented copy (tools/rewrite,
 // rewriteGo). With a simulator installed the new goroutine is registered at the
